@@ -11,9 +11,10 @@ func init() {
 		Title:       "Bounds is the tight bounding box and FastBounds contains it",
 		Explanation: "Decides, for every path, the structural clauses of Bounds/FastBounds/Rect hulls: each accumulator returned as a low (high) side is only ever updated by math.Min (math.Max) folds that include itself; no fold nests the opposite operator; Bounds folds every segment end point into all four sides unconditionally; FastBounds folds every decoded control/end point into all four sides with min/max and X/Y candidate sets mirrored (arc: centre∓max(rx,ry)); Rect.Transform/Add/AddPoint hulls are pure and complete. A violated clause makes the box exclude a point of the path for some input. NOT decided: which Bézier/arc extrema are computed (root finding, angle tests), tightness, equivariance.",
 		Run: func(c *core.Ctx, r *core.Report) {
-			E11AboutIsConjugation(c, r) // the Matrix helpers every view and transformation is composed with
-			E11MatrixComposers(c, r) // the Matrix helpers every view and transformation is composed with
-			E8Units(c, r) // degrees and radians: every property that handles arcs or rotations
+			E3EllipseFrameRotation(c, r) // the radii correction every stored arc goes through
+			E11AboutIsConjugation(c, r)  // the Matrix helpers every view and transformation is composed with
+			E11MatrixComposers(c, r)     // the Matrix helpers every view and transformation is composed with
+			E8Units(c, r)                // degrees and radians: every property that handles arcs or rotations
 			E11ArcRotationRewritten(c, r)
 			E11AngleRangeNormalised(c, r)
 			E2CarriedShadow(c, r)
@@ -79,6 +80,7 @@ func init() {
 		Title:       "Containment and winding queries agree with the path's winding number",
 		Explanation: "Decides: in RayIntersections the per-segment pre-filter hull is a pure Min/Max tree over start, end and every decoded control point (arc: centre∓max(rx,ry)), so no segment the ray can cross is skipped; Contains returns fillRule.Fills(n) for n from Windings(x, y); Windings/Crossings visit every element of Split(); Fills agrees with the rule definitions. Since batch 11 also: over all paths of the hit loops of windings and Crossings, a counted hit is non-tangent or a vertex whose sides agree, an end-point hit is always remembered or compared, overlapping hits have no effect; no direction is taken from a cubic derivative that can be zero. NOT decided: the intersection arithmetic of the primitives, CCW's index logic, Filling's nesting logic.",
 		Run: func(c *core.Ctx, r *core.Report) {
+			E3EllipseFrameRotation(c, r) // the radii correction every stored arc goes through
 			E9DirectionFallbackSymmetric(c, r)
 			E8Units(c, r) // degrees and radians: every property that handles arcs or rotations
 			E9PendingNotOverwritten(c, r)
@@ -108,6 +110,7 @@ func init() {
 		Title:       "Length, SplitAt and Reverse are consistent views of the same curve",
 		Explanation: "Decides the encoding clauses Length/SplitAt/Reverse/Split depend on, for every path: in every decoder loop of the package (incl. SplitAt, Reverse, Split, Length) a command cursor of one path only indexes that path's data; payload offsets stay inside the record of the command being decoded; every record built (incl. the ones Reverse emits) has the command at both ends and the format's length; cmdLen agrees with the format. NOT decided: quadrature, arc-length inversion, involution, winding negation.",
 		Run: func(c *core.Ctx, r *core.Report) {
+			E3EllipseFrameRotation(c, r) // the radii correction every stored arc goes through
 			E11SplitPartition(c, r)
 			E8Units(c, r) // degrees and radians: every property that handles arcs or rotations
 			E11CutsSortedBeforeUse(c, r)
@@ -154,6 +157,7 @@ func init() {
 		Explanation: "Decides, for every input string: (1) each index of the input bytes in ParseSVGPath/skipCommaWhitespace is dominated by a bound check on every path through the function (path-sensitive guard facts over the AST, short-circuit aware); the per-command number-count table fits the number buffer; (2) no explicit panic(...) in the canvas module is reachable in the VTA call graph from ParseSVGPath or ParseSVG (restricted to the import closure of package canvas, since no value of another package's type can exist in that call tree) except the reviewed sites listed in the evidence. NOT decided: round-trip equality and number minification, implicit run-time panics other than the named index guards, termination, panics inside third-party Go dependencies (font parsing, shaping).",
 		Assumptions: []string{"cursor variables are non-negative (initialised to 0 and only incremented)", "strconv.ParseFloat (tdewolff/parse) returns 0 <= n <= len(b)", "third-party dependencies are trusted not to panic"},
 		Run: func(c *core.Ctx, r *core.Report) {
+			E3EllipseFrameRotation(c, r) // the radii correction every stored arc goes through
 			E11MagnitudeTestOnAbs(c, r)
 			E4SliceLengthGuarded(c, r)
 			E11EmptyCloseKeepsPosition(c, r)
@@ -177,6 +181,7 @@ func init() {
 		Explanation: "Decides one clause only, 'terminates with a result for any sequence of items' in its no-panic part: every index of the caller-supplied item slice in Linebreak and the linebreaker methods is dominated by a bound check or is an index parameter whose bound is established at every call site (interprocedural index contract), and no explicit panic is reachable from Linebreak. NOT decided: legality of breakpoints, feasibility, optimality, relaxation of the tolerance, termination.",
 		Assumptions: []string{"lb.items[active.Position] (a position stored earlier from a checked index) is listed as unclassified, not decided"},
 		Run: func(c *core.Ctx, r *core.Report) {
+			E4GlueAfterBox(c, r)
 			E4DeactivationWithoutPenaltyWidth(c, r)
 			E11BreakWidth(c, r)
 			E4FlaggedPairRealBreak(c, r)
@@ -237,9 +242,10 @@ func init() {
 		Explanation: "Decides structural agreement among the four back-ends for every drawing: each RenderPath reads every Style field (a back-end that never reads a field cannot honour it); every explicit Dash call receives canvas.ScaleDash(style.StrokeWidth, …) like the reference rasterizer; every path serialised by ToSVG/ToPDF/ToPS/ToScanxScanner derives on every path from Transform(M) with M built from the view parameter (SVG: with the y-flip), incl. the explicit-outline fall-backs; cap/join codes per concrete Capper/Joiner type agree with the formats' tables and the even-odd marker is emitted only under FillRule == EvenOdd; the emitted PDF and PostScript fragments form only operators of the respective vocabulary with balanced save/restore (abstract interpretation with path-sensitive repeated conditions), and procedure names emitted by Path.ToPS are defined in the PS prolog. NOT decided: that an interpreter of the output paints the same pixels, gradients/patterns, text, opacity, unit factors, Positive/Negative fill rules (no back-end format has them).",
 		Assumptions: []string{"the rasterizer is the reference for dash scaling", "PS.RenderImage (binary image data) is outside the grammar rule"},
 		Run: func(c *core.Ctx, r *core.Report) {
+			E11ImageExtentFromSize(c, r)
 			E11AboutIsConjugation(c, r) // the Matrix helpers every view and transformation is composed with
-			E11MatrixComposers(c, r) // the Matrix helpers every view and transformation is composed with
-			E8Units(c, r) // degrees and radians: every property that handles arcs or rotations
+			E11MatrixComposers(c, r)    // the Matrix helpers every view and transformation is composed with
+			E8Units(c, r)               // degrees and radians: every property that handles arcs or rotations
 			E2PenTracking(c, r, []string{"Path.ToSVG", "Path.ToPS", "Path.ToPDF"})
 			E5NameMemoScope(c, r)
 			E5PageMemoFresh(c, r)
@@ -277,6 +283,7 @@ func init() {
 		Explanation: "Decides, for every path and argument: (1) every exported method of *Path/Paths other than the documented in-place mutators/sinks (each re-justified by its doc phrase) writes no memory reachable from its receiver or arguments — interprocedural effect analysis on SSA; the copy-on-write latch of replace is verified structurally; (2) the command encoding discipline: cmdLen vs the format, payload offsets inside the decoded record, every record built/retagged with the command at both ends; Split hands out capacity-limited sub-slices; (3) no in-place transform accumulates over loop iterations, no loop state variable is stuck at its initial constant. (4) since batch 12: every explicit panic reachable from Settle/And/Or/Xor/Not/DivideBy is a reviewed precondition or data-structure guard, or a known finding with a failing input; the sweep's work-list loop is reported for having no explicit bound (known finding: an operand pair on which Or does not return). NOT decided: 'no zero-length segments', the geometry the builders trace, implicit run-time panics other than those named, termination of anything but that loop.",
 		Assumptions: []string{"standard-library functions not in the mutator table are pure (listed in coverage.external_assumed)", "results of calls through function-typed parameters are fresh objects", "one reviewed call edge: Dash -> Join (reason in the checker's exception table)"},
 		Run: func(c *core.Ctx, r *core.Report) {
+			E11QuadLineTestMirror(c, r)
 			E11StaleAfterBuilder(c, r)
 			E11JoinCoincidence(c, r)
 			E8Units(c, r)
@@ -316,9 +323,10 @@ func init() {
 		Explanation: "Decides, for every canvas: (1) 'rendering leaves the canvas, its paths and its gradients unchanged': RenderPath/RenderText/RenderImage of all four back-ends, Canvas.RenderTo/RenderViewTo and rasterizer.Draw write no memory reachable from the path, style (dash array, gradient stops, patterns), text, image or canvas arguments (interprocedural effect analysis on SSA with callback-invocation summaries); (2) the rasterizer reads every Style field including the fill rule; (3) every scanner emission maps coordinates as (x*dpmm, height-y*dpmm) and the image size is width x height x resolution in both constructors. NOT decided: pixel coverage, anti-aliasing, later-draws-cover-earlier, determinism of the scanner library.",
 		Assumptions: []string{"standard-library functions not in the mutator table are pure (listed in coverage.external_assumed)", "results of calls through function-typed parameters are fresh objects", "third-party Go dependencies are analysed from source, cgo is not"},
 		Run: func(c *core.Ctx, r *core.Report) {
+			E11ImageExtentFromSize(c, r)
 			E11ImageReplacedExtent(c, r)
 			E11AboutIsConjugation(c, r) // the Matrix helpers every view and transformation is composed with
-			E11MatrixComposers(c, r) // the Matrix helpers every view and transformation is composed with
+			E11MatrixComposers(c, r)    // the Matrix helpers every view and transformation is composed with
 			E11SinkForwardsEverySegment(c, r)
 			E11ViewScaleInvariant(c, r)
 			E6SkipBoundsCover(c, r)
@@ -344,7 +352,7 @@ func init() {
 		Run: func(c *core.Ctx, r *core.Report) {
 			E11AccumulatorRestart(c, r)
 			E3BoundingBoxes(c, r) // Rect.Transform and the hull methods: Fit, Clip and the views map boxes with them
-			E8Units(c, r) // degrees and radians: every property that handles arcs or rotations
+			E8Units(c, r)         // degrees and radians: every property that handles arcs or rotations
 			E11AboutIsConjugation(c, r)
 			E11MatrixComposers(c, r)
 			E11LayerMatrixLeft(c, r)
@@ -370,6 +378,7 @@ func init() {
 		Title:       "Flattening approximates every curve within the requested tolerance",
 		Explanation: "Decides the 'made only of straight segments' clause for every input and tolerance: by command-set typing over the whole package, Flatten's result can contain only MoveTo/LineTo/Close (plus such commands inherited from the receiver) and ReplaceArcs' result no ArcTo; the replace driver has the validated splice shape (each kind calls its own non-nil replacer, the record is cut before the replacement is joined, the cursor restarts at the re-attached remainder, so every remaining command passes through the switch); the consumers that rely on it (ToPDF/Tile arc panics, stride-4 scanner loops, the sweep's non-flat panic) only see such paths. Of XMonotone one clause: the second root of a cubic is re-mapped onto the remainder exactly when the curve was cut at the first (E11.remap-iff-split). NOT decided: the error bound, vertex order, same end points, termination as the tolerance goes to 0, X-monotonicity in general.",
 		Run: func(c *core.Ctx, r *core.Report) {
+			E3EllipseFrameRotation(c, r) // the radii correction every stored arc goes through
 			E11StaleAfterBuilder(c, r)
 			E10FlatRestTurningPoint(c, r)
 			E8Units(c, r) // degrees and radians: every property that handles arcs or rotations
@@ -467,6 +476,7 @@ func init() {
 		Title:       "Embedded fonts and glyph paths reproduce the laid-out text",
 		Explanation: "Decides three structural clauses: (1) 'the glyph subsetter assigns each used glyph one stable code with .notdef at zero' — the constructor and Get/List have exactly the hit/miss/append shape, and the PDF writer creates a font's subsetter only when the font has none (a second writing direction must not reset the codes already written); (2) fonts used for vertical text are kept in their own map and written with the matching vertical flag (Identity-V vs Identity-H), every font map that reserves an object is written in Close, and every Tf operand names a font registered in the page's resources (E5 font-map and resource rules). (3) the ToUnicode grouping loop keeps `start+length` equal to the visited code (E11.run-covers-codes). NOT decided: outlines, advances, the W array contents, the characters the ToUnicode map names, glyph placement in toPath.",
 		Run: func(c *core.Ctx, r *core.Report) {
+			E5WidthIDSpace(c, r)
 			E11SpanOffsetAxes(c, r)
 			E5CMapBlockLimit(c, r)
 			E5SignedRounding(c, r)
@@ -491,6 +501,7 @@ func init() {
 		Title:       "Imported SVG documents draw the geometry the SVG specifies",
 		Explanation: "Decides the unit and coverage tables of the importer for every document: parseDimension's factors equal the CSS absolute-unit and angle tables (constant folding); the canvas size is in millimetres on every branch (explicit width/height and viewBox fallback use the same px→mm factor) and init uses the inverse factor, the y-down coordinate system and the size/viewBox user-unit scale (px→mm without a viewBox); drawShape has a case for each basic shape; the path data parser's index guards and explicit-panic freedom are decided under C11. NOT decided: styling precedence, CSS selectors, transform order, per-element geometry, the write/read round trip.",
 		Run: func(c *core.Ctx, r *core.Report) {
+			E11SVGAttributeIndependence(c, r)
 			E8Units(c, r) // degrees and radians: every property that handles arcs or rotations
 			E11AboutIsConjugation(c, r)
 			E11MatrixComposers(c, r)
@@ -526,6 +537,7 @@ func init() {
 		Title:       "Text layout places every character once, inside the box, on ordered lines",
 		Explanation: "Decides two structural clauses. (1) the structural part of 'lines are stacked monotonically by their line heights … Text.Bounds/Heights enclose all spans': a line's top/ascent/descent/bottom are pure component-wise math.Max folds over its spans (each accumulator folded with the same-named component of FontFace.heights(), inline objects' ascent/descent feeding the right pair), and Text.Heights combines the first line's ascent with the last line's descent. (2) a necessary condition of 'right-aligned lines end at the width, centred lines are centred, no line extends beyond the box unless Overflows is reported': the width the line breaker records for a feasible break includes the width of the penalty (the hyphen shown at the break), by the same guarded addition the fitting computation uses. NOT decided: everything else — that every character appears exactly once and in order, glyph/byte index bookkeeping, glue stretching, alignment, bidi reordering, Overflows, which are arithmetic over runtime arrays with no structural clause. Also runs the structural rules on Linebreak (registered for C17): the lines of a text box are those Linebreak chooses.",
 		Run: func(c *core.Ctx, r *core.Report) {
+			E4GlueAfterBox(c, r)
 			E4DeactivationWithoutPenaltyWidth(c, r)
 			E4ListLinks(c, r)
 			E11IndentOnEveryPath(c, r)
@@ -589,6 +601,7 @@ func init() {
 		Explanation: "Decides, for every schedule and history: (1) no package-level variable of the module is stored outside package initialisation except inside a sync.Once/OnceFunc body, with the mutex of the same variable held (dominating Lock, no intervening Unlock), or through sync/atomic, and mutex-protected variables are also read under the mutex; (2) every function that reads the once-initialised pool variables is reachable from the concurrent API set only through a function whose once-call dominates all its other calls; (3) every object taken from a sync.Pool is completely overwritten or has every field stored before its first other use (no state carried between calls); (4) every range over a map in the module is order-independent by construction (collect-then-sort, commutative reductions, per-entry updates, total-order arg-best) or is a reviewed/known entry. NOT decided: races inside third-party packages, use-after-Put of pooled objects, writes through shared *Font objects (see E1 when wired), the naming of unnamed fonts by a global counter (inherent to the API).",
 		Assumptions: []string{"sync, sync/atomic behave as documented", "the API set is the one listed in DESIGN.md §3 C20"},
 		Run: func(c *core.Ctx, r *core.Report) {
+			E7GlobalMapEscapes(c, r)
 			E7CachedObjectWritten(c, r)
 			E7FaceWithoutCache(c, r)
 			E7PoolPutEscapes(c, r)
